@@ -445,7 +445,7 @@ func runCheck(prop string, ps *PropSpec, tier, repo string, seed int, verbose bo
 		standInReports = append(standInReports, rep)
 		if !ok {
 			path := filepath.Join(replayDir, "standin-"+fileSafe(si.Name)+".txt")
-			_ = os.WriteFile(path, []byte("Bounded stand-in "+si.Name+" of property "+prop+" failed on the real code: a fact the contracts assume does not hold for the input below.\nbound: "+si.Bound+"\n\n"+out), 0o644)
+			_ = os.WriteFile(path, []byte("Bounded stand-in "+si.Name+" of property "+prop+" failed on the real code for the input below (a bounded check standing in for something the contracts assume or leave undecided).\nbound: "+si.Bound+"\n\n"+out), 0o644)
 			fmt.Printf("VIOLATION property=%s replay=%s\n", prop, path)
 			violations++
 			exit = 1
